@@ -15,7 +15,10 @@ import (
 )
 
 func readRules(input io.Reader) ([]rule, error) {
-	rules := defaultExclusions
+	// Work on a copy: marking negationsAfter below must not write through to
+	// the package-level default rules shared with DefaultRuleset.
+	rules := make([]rule, len(defaultExclusions))
+	copy(rules, defaultExclusions)
 	scanner := bufio.NewScanner(input)
 	scanner.Split(bufio.ScanLines)
 	currentRuleIndex := len(defaultExclusions) - 1
